@@ -1,9 +1,12 @@
 import Driver.Common
 import Logrange.Model.TIndexId
+import Logrange.Model.TIndexSave
 /-! Model driver for C06 (partition identity and FROM selection). State: the tag index (`TIndexId.St`).
 
 * `reset` → `ok`
-* `goc <raw> <create 0|1>` → `ok <id>` | `badtags` | `empty` | `notfound`         (`getOrCreateJournal`)
+* `goc <raw> <create 0|1>` → `ok <id>` | `badtags` | `empty` | `notfound`         (`getOrCreateJournal`, the index save succeeds)
+* `gocf <raw> <create 0|1>` → the same, or `savefailed`: the index save fails in this call (model `TIndexSave`, roll-back as the
+  regenerated facts say); ids are renamed densely in order of first appearance in an answer (as the harness does)
 * `visit <source>` → `model=<ok id*|rej> spec=<ok id*|rej>`  (ids sorted; spec = filter by the reference evaluator)
 * `eval <source> | <k> <v> …` → `model=<0|1|rej> spec=<0|1|rej>`                   (one tag set, stateless)
 * `like <pattern> <name>` → `1|0|bad`                                              (`path.Match`)
@@ -14,7 +17,7 @@ import Logrange.Model.TIndexId
 ident = `L <operand>` | `F <operand> <ident>` | `B <operand>`, op ∈ lt gt le ge ne eq like contains prefix suffix other.
 Case mapping in the driver is ASCII only (the harness uses ASCII operands under UPPER/LOWER).
 -/
-open Go Logrange Logrange.KV Logrange.Tags Logrange.TagsEval Logrange.TIndexId Driver
+open Go Logrange Logrange.KV Logrange.Tags Logrange.TagsEval Logrange.TIndexId Logrange.TIndexSave Driver
 
 def so : StrOps := ⟨asciiUpper, asciiLower, Logrange.PathMatch.pathMatch⟩
 
@@ -81,32 +84,59 @@ def showIds (l : List Nat) : String :=
 
 def b01 (o : Option Bool) : String := match o with | some true => "1" | some false => "0" | none => "rej"
 
-def step (s : St) (toks : List String) : St × String :=
+structure DSt where
+  st : StS := {}
+  /-- model ids in order of first appearance in an answer -/
+  seen : List Nat := []
+
+def dense (seen : List Nat) (i : Nat) : String :=
+  match seen.findIdx? (· == i) with
+  | some k => toString k
+  | none => s!"u{i}"      -- an id that was never handed out
+
+def showIdsD (seen : List Nat) (l : List Nat) : String :=
+  let known := sortNat (l.filterMap (fun i => seen.findIdx? (· == i)))
+  let unknown := (l.filter (fun i => !seen.contains i)).map (fun i => s!"u{i}")
+  let all := known.map toString ++ unknown
+  if all.isEmpty then "ok" else "ok " ++ " ".intercalate all
+
+def gocStep (d : DSt) (raw : Bytes) (create saveOK : Bool) : DSt × String :=
+  let (s', r) := getOrCreateS codeFacts d.st raw create saveOK
+  match r with
+  | .saveFailed => ({ d with st := s' }, "savefailed")
+  | .res (.ok i) =>
+    let seen := if d.seen.contains i then d.seen else d.seen ++ [i]
+    ({ st := s', seen := seen }, s!"ok {dense seen i}")
+  | .res .badTags => ({ d with st := s' }, "badtags")
+  | .res .empty => ({ d with st := s' }, "empty")
+  | .res .notFound => ({ d with st := s' }, "notfound")
+
+def step (d : DSt) (toks : List String) : DSt × String :=
+  let s := d.st.base
   match toks with
   | ["reset"] => ({}, "ok")
-  | ["goc", raw, c] =>
-    let (s', r) := getOrCreate s (unhex raw) (c == "1")
-    (s', match r with | .ok i => s!"ok {i}" | .badTags => "badtags" | .empty => "empty" | .notFound => "notfound")
+  | ["goc", raw, c] => gocStep d (unhex raw) (c == "1") true
+  | ["gocf", raw, c] => gocStep d (unhex raw) (c == "1") false
   | "visit" :: src =>
     (match pSource src with
      | some (sc, _) =>
-       let m := match visit so s sc with | some ds => showIds (ds.map Desc.src) | none => "rej"
-       -- SPEC: filter by the reference evaluator; rejected iff it rejects (on any set: use the empty set as probe too)
+       let m := match visitS so d.st sc with | some ds => showIdsD d.seen (ds.map Desc.src) | none => "rej"
+       -- SPEC: filter ALL partitions of the index by the reference evaluator; rejected iff it rejects
        let all := s.tmap.map (·.2)
-       let sp := if (evalTagsRef so sc []).isNone || all.any (fun d => (evalTagsRef so sc d.tags).isNone) then "rej"
-                 else showIds ((all.filter (fun d => evalTagsRef so sc d.tags == some true)).map (·.src))
-       (s, s!"model={m} spec={sp}")
-     | none => (s, "bad-source"))
+       let sp := if (evalTagsRef so sc []).isNone || all.any (fun x => (evalTagsRef so sc x.tags).isNone) then "rej"
+                 else showIdsD d.seen ((all.filter (fun x => evalTagsRef so sc x.tags == some true)).map Desc.src)
+       (d, s!"model={m} spec={sp}")
+     | none => (d, "bad-source"))
   | "eval" :: rest =>
     (match pSource rest with
      | some (sc, r) =>
        let m := Map.ofPairs (pairsOfToks ((r.dropWhile (· != "|")).drop 1))
        let mo := (buildSource so sc).map (fun f => f m)
-       (s, s!"model={b01 mo} spec={b01 (evalTagsRef so sc m)}")
-     | none => (s, "bad-source"))
-  | ["like", p, n] => (s, match Logrange.PathMatch.pathMatch (unhex p) (unhex n) with | some true => "1" | some false => "0" | none => "bad")
-  | ["safe", t] => (s, match parse (unhex t) with | some m => (if safePinned m then "1" else "0") | none => "1")
-  | ["safest"] => (s, if s.tmap.all (fun e => safePinned e.2.tags) then "1" else "0")
-  | _ => (s, "bad-op")
+       (d, s!"model={b01 mo} spec={b01 (evalTagsRef so sc m)}")
+     | none => (d, "bad-source"))
+  | ["like", p, n] => (d, match Logrange.PathMatch.pathMatch (unhex p) (unhex n) with | some true => "1" | some false => "0" | none => "bad")
+  | ["safe", t] => (d, match parse (unhex t) with | some m => (if safePinned m then "1" else "0") | none => "1")
+  | ["safest"] => (d, if s.tmap.all (fun e => safePinned e.2.tags) then "1" else "0")
+  | _ => (d, "bad-op")
 
-def main (args : List String) : IO Unit := Driver.run step ({} : St) args
+def main (args : List String) : IO Unit := Driver.run step ({} : DSt) args
